@@ -23,7 +23,9 @@ import (
 // c18Value draws an ordinate aimed at the rounding logic for d digits.
 func c18Value(r *fw.Rand, d int) float64 {
 	unit := math.Pow(10, -float64(d))
-	switch r.Intn(12) {
+	switch r.Intn(13) {
+	case 12: // on or next to the ends of the integer types and digit-count boundaries (2^31, 2^53, 2^63, 2^64, 10^k)
+		return gen.Float(r, gen.IntEdge)
 	case 0: // straddling a rounding boundary (k + 1/2) units
 		k := float64(r.Range(-2000, 2000))
 		return gen.NextAfterN((k+0.5)*unit, r.Range(-3, 3))
@@ -272,6 +274,37 @@ func c18WKT(c *fw.Ctx, idx int) {
 		c.Eval(2)
 		if e1 != nil || e2 != nil || (rev != text && rev != plain) {
 			c.Fail("option-sequence", "digits options %d then -1: err=%v/%v, output %s is neither the %d-digit output %s nor the unlimited output %s", d, e1, e2, clipStr(rev, 200), d, clipStr(text, 200), clipStr(plain, 200))
+			return
+		}
+	}
+	// the option is a function on an Encoder and can be applied to one that exists
+	// already (made with another limit, or the zero value): from then on it
+	// encodes with the new limit
+	if r.Chance(1, 4) {
+		var viaOpt string
+		var e3 error
+		how := "NewEncoder(other limit), then the option applied"
+		if c.Guard("panic", func() {
+			var enc2 *wkt.Encoder
+			if r.Bool() {
+				enc2 = wkt.NewEncoder(wkt.EncodeOptionWithMaxDecimalDigits(r.Range(-1, 15)))
+				if r.Bool() {
+					enc2.Encode(t) // used once with its first limit
+					how = "NewEncoder(other limit), one Encode, then the option applied"
+				}
+			} else {
+				enc2 = &wkt.Encoder{}
+				how = "zero-value Encoder, then the option applied"
+			}
+			wkt.EncodeOptionWithMaxDecimalDigits(d)(enc2)
+			viaOpt, e3 = enc2.Encode(t)
+		}) {
+			return
+		}
+		c.Eval(1)
+		c.Count("digits_option_applied_to_an_existing_encoder")
+		if e3 != nil || viaOpt != text {
+			c.Fail("option-sequence", "%s (%d digits): err=%v, output %s; wkt.Marshal with that limit gives %s", how, d, e3, clipStr(viaOpt, 200), clipStr(text, 200))
 			return
 		}
 	}
